@@ -14,7 +14,7 @@ TARGET = dict(
              repo=LIBUPIPE + _TS("upipe_ts_encaps.c", "upipe_ts_decaps.c", "upipe_ts_pes_encaps.c", "upipe_ts_pes_decaps.c"), engine=MEMFIX),
         dict(name="decaps", harness="harness/C15_decaps.c", share=1.0, case_scale=0.75,
              repo=LIBUPIPE + _TS("upipe_ts_decaps.c", "upipe_ts_pes_decaps.c", "upipe_ts_split.c", "upipe_ts_pid_filter.c"), engine=MEMFIX),
-        dict(name="corrupt", harness="harness/C15_corrupt.c", share=1.0,
+        dict(name="corrupt", harness="harness/C15_corrupt.c", share=1.0, fuzz=dict(quick=(8, 10), thorough=(16, 120)),
              repo=LIBUPIPE + _TS("upipe_ts_decaps.c", "upipe_ts_pes_decaps.c", "upipe_ts_split.c", "upipe_ts_pid_filter.c"), engine=MEMFIX),
     ],
     quick=dict(cases=14000, budget=12), thorough=dict(cases=150000, budget=150),
